@@ -102,6 +102,8 @@ def shard(ctx, col):
 
     def one_b(rng):
         case = planprog.gen_program(rng)
+        for why in case.get('excluded', ()):
+            col.exclude('B:' + why)
         o = in_fresh_thread(planprog.check_program, case['text'], case['request'])
         if o.inconclusive:
             col.inconc('B:' + o.inconclusive)
